@@ -29,6 +29,8 @@ var serverFaults = []string{
 	"accept-multi-field-messages", "accept-zero-election-id", "accept-unsupported-params", "accept-mismatched-params",
 	"leak-results-to-other-clients", "flush-on-new-primary", "fail-entries-with-metadata",
 	"report-own-election-id",
+	// Get returns entries of one kind under a key that was never programmed (stale / wrong data) - the instance is there
+	"get-rekeys-ipv4", "get-rekeys-ipv6", "get-rekeys-nhg", "get-rekeys-nh",
 }
 
 // Every designated test in which the fault manifested must fail (not just one of them): with the
@@ -60,8 +62,14 @@ func designated(fault string) func(name string) bool {
 		return has("Get for installed NHG -", "Get for installed chain")
 	case "get-omits-ipv4":
 		return has("Get for installed IPv4", "Get for installed chain")
-	case "get-omits-ipv6":
+	case "get-omits-ipv6", "get-rekeys-ipv6":
 		return has("Get for installed IPv6")
+	case "get-rekeys-ipv4":
+		return has("Get for installed IPv4", "Get for installed chain")
+	case "get-rekeys-nhg":
+		return has("Get for installed NHG -", "Get for installed chain")
+	case "get-rekeys-nh":
+		return has("Get for installed NH -", "Get for installed chain")
 	case "ignore-flush":
 		// ("Flush non-default network instances preserves the default" flushes an empty instance: ignoring that is invisible)
 		return has("Flush of all entries", "Flush from client overriding", "Flush to specific network instance", "Flush all network instances")
@@ -481,6 +489,33 @@ func (f *faultyGet) Send(r *spb.GetResponse) error {
 			return nil
 		}
 		r = c
+	case "get-rekeys-ipv4", "get-rekeys-ipv6", "get-rekeys-nhg", "get-rekeys-nh":
+		c := proto.Clone(r).(*spb.GetResponse)
+		for _, en := range c.Entry {
+			switch t := en.Entry.(type) {
+			case *spb.AFTEntry_Ipv4:
+				if f.fault == "get-rekeys-ipv4" {
+					simrt.Active().Fault("srv-fault:" + f.fault)
+					t.Ipv4.Prefix = "203.0.113.77/32"
+				}
+			case *spb.AFTEntry_Ipv6:
+				if f.fault == "get-rekeys-ipv6" {
+					simrt.Active().Fault("srv-fault:" + f.fault)
+					t.Ipv6.Prefix = "2001:db8:dead::/48"
+				}
+			case *spb.AFTEntry_NextHopGroup:
+				if f.fault == "get-rekeys-nhg" {
+					simrt.Active().Fault("srv-fault:" + f.fault)
+					t.NextHopGroup.Id += 7777
+				}
+			case *spb.AFTEntry_NextHop:
+				if f.fault == "get-rekeys-nh" {
+					simrt.Active().Fault("srv-fault:" + f.fault)
+					t.NextHop.Index += 7777
+				}
+			}
+		}
+		r = c
 	case "get-mislabels-ni":
 		c := proto.Clone(r).(*spb.GetResponse)
 		for _, en := range c.Entry {
@@ -494,7 +529,7 @@ func (f *faultyGet) Send(r *spb.GetResponse) error {
 
 func installFault(sr *suiteRun, n *simnet.Net, s *server.Server, fault string) {
 	switch fault {
-	case "empty-get", "incomplete-get", "get-omits-nh", "get-omits-nhg", "get-omits-ipv4", "get-omits-ipv6", "get-mislabels-ni":
+	case "empty-get", "incomplete-get", "get-omits-nh", "get-omits-nhg", "get-omits-ipv4", "get-omits-ipv6", "get-mislabels-ni", "get-rekeys-ipv4", "get-rekeys-ipv6", "get-rekeys-nhg", "get-rekeys-nh":
 		n.WrapGet = func(g spb.GRIBI_GetServer) spb.GRIBI_GetServer { return &faultyGet{GRIBI_GetServer: g, fault: fault} }
 	case "ignore-flush":
 		n.FlushHook = func(ctx context.Context, req *spb.FlushRequest, next func() (*spb.FlushResponse, error)) (*spb.FlushResponse, error) {
